@@ -59,15 +59,15 @@ LARGE = {
  "C04": " Beyond the small scope: structured pairs of 40..270 elements x windows up to 257. Configuration families (DESIGN 5.15): the value law on every input backend; NaN kinds. Narrow element types at magnitude in both roles of the two-series statistics (pairs-narrow, trend-narrow). The second series in every backend configuration; structured pairs of 1030 / 2100 elements.",
  "C05": " Beyond the small scope: structured shapes / pairs of 40..300 elements x windows up to 301; flat stretches of non-dyadic values (mask only). NaN kinds (DESIGN 5.15). Integer orders of the fractional difference. Structured series of 1030 / 2100 elements. Infinities as observations in the extrema / rank family on f64, f32 and Option<f32> (mask-infinite).",
  "C06": " Beyond the small scope: prefix law and window-only relation on structured series of 40..270 elements, windows 9..257. Configuration families (DESIGN 5.15): the window-only relation on every input backend. Integer orders of the fractional difference. The slice / index drivers themselves under the prefix law on every input back end incl. option views (driver-prefix). Both zeros: the reported extreme is bit for bit independent of the pre-window history.",
- "C07": " Beyond the small scope: the matrix on structured series of 24 / 40 elements with windows 9, 16, 17; Datetime / String / Int32 / Int64 / Float32 / Boolean Polars columns under every chunking. Configuration families (DESIGN 5.15): caller buffers in non-canonical layouts for every built-in statistic, the user-function drivers and lazy mapping results. Every container also as the second series of the two-series functions. Owned ndarray arrays in non-standard layouts (slice_move, invert_axis; behind Arc and .opt()) as input back ends. The error path of fallible collection in every output container.",
+ "C07": " Beyond the small scope: the matrix on structured series of 24 / 40 elements with windows 9, 16, 17; Datetime / String / Int32 / Int64 / Float32 / Boolean Polars columns under every chunking. Configuration families (DESIGN 5.15): caller buffers in non-canonical layouts for every built-in statistic, the user-function drivers and lazy mapping results. Every container also as the second series of the two-series functions. Owned ndarray arrays in non-standard layouts (slice_move, invert_axis; behind Arc and .opt()) as input back ends. The error path of fallible collection in every output container. Round 12 (DESIGN 5.21): the two-series functions with a second series two elements longer than the first - one result per element of the first series from every back end and path.",
  "C08": " Beyond the small scope: the encoding relation on structured series of 24..70 elements and on an alphabet with +-inf; the null-skipping fold primitives themselves. NaN kinds (DESIGN 5.4 / 5.15): encoding and transparency relations with sign-bit, payload and mixed NaNs. Null transparency of the position-independent rolling statistics (window with its nulls deleted). Rank transparency (vrank absolute / percentile). The option view .opt() as a third encoding (optview). The rolling rank in the rolling transparency relation. The rolling normalisations in the transparency relation.",
  "C09": " Beyond the small scope: sources and depth-1/2 pipelines on series of 1030 / 4100 elements; non-dyadic range steps (hint law); typed Polars columns; stateright cross-check of the next / next_back machine. Also vcut (fallible items) as a source, the std scan adaptor, and TrustedLen::len() == items still to come in every state. declared-trusted: about 40 std adaptor chains over sources of unknown length, probed at compile time for a TrustedLen declaration; whatever is declared must be exact in every state.",
  "C10": " Beyond the small scope: structured series of 40 / 270 elements with windows 255..257; 'expanding window' requests usize::MAX, 2^63. Configuration families (DESIGN 5.15): every entry point writing into strided / reversed / wrapped caller buffers with an audit of the whole backing storage (every slot of the view written, no cell outside it touched). Second series longer by up to 3; unbounded windows in the caller-layout family. A call that ignores the buffer it was handed (returns a container) is a fault. A one-element result broadcast into audited caller buffers of 2..4 slots in every layout. The partition iterators through a trusted collector into the instrumented container.",
  "C11": " Beyond the small scope: structured series of 17..4100 elements; narrow element types at magnitude (+-50001). Also infinite observations (series of nothing but infinities included) for counts, positions and extrema; NaN kinds. Iterator sources of unknown announced length; i32 series whose sum leaves the type. The vcorr convenience wrapper (omitted min_periods and 0..=len+1). The masked sum / mean with infinities. Constant series of non-dyadic values: variance / standard deviation never negative, never null (numeric-constant).",
- "C12": " Beyond the small scope: structured series and modular permutations of 17..64 elements; infinities as values; power-of-two scaling relation. Also ranks and partitions of ordered non-numeric element types (DateTime, Time, TimeDelta, String, Option<i64>, Option<bool>); NaN kinds. Unsigned element types; i32 neighbours further apart than the type's MAX. Durations 300 ns apart and durations beyond the i64 nanosecond count. Percentile of score on 64-bit integers beyond 2^53 (translation relation).",
+ "C12": " Beyond the small scope: structured series and modular permutations of 17..64 elements; infinities as values; power-of-two scaling relation. Also ranks and partitions of ordered non-numeric element types (DateTime, Time, TimeDelta, String, Option<i64>, Option<bool>); NaN kinds. Unsigned element types; i32 neighbours further apart than the type's MAX. Durations 300 ns apart and durations beyond the i64 nanosecond count. Percentile of score on 64-bit integers beyond 2^53 (translation relation). Round 12 (DESIGN 5.21): order-huge - same-sign f64 words at the top of the range (1e308 .. f64::MAX) through vmedian and the linear vquantile: finite and between the neighbouring order statistics.",
  "C13": " Beyond the small scope: structured series of 24..130 elements with every lag of the band; power-of-two scaling relation for vdiff / vpct_change. NaN kinds (DESIGN 5.15). Infinities in every element-wise operation. vclip on TimeDelta / Option<TimeDelta> with plain and month-bearing elements and bounds (maps-durations). Every lazy result advanced by nth(j): items and announced length afterwards.",
  "C14": " Beyond the small scope: 17..257 consecutive edges with values on / between every edge and the type extremes / infinities; runs of 255..257 equal values; translation relation on i64 around +-2^60. Also labels that are nulls themselves (NaN / None / \"None\") at every position. Sorted runs of TimeDelta values, incl. durations beyond the i64 nanosecond count (unique-durations). Value sequences with repeats, misses and nulls in every order (cut-sequences): items after an Err are still right. Labels of the time types, strings, optional bools / indices incl. the type's default value as a label.",
- "C15": " Also IsNone for Vec<T>, order laws on every time type, i64 casts of the time types, durations of ~300 years. Also law L9: inner_cast / into_cast keep the value and keep a null a null (ten Self types x eight value types). Law L10: the accessor family of the Number trait against `as`. Both signs of NaN in the float value lists. Law L11: equality of durations is the identity of their fields; month-bearing, sub-microsecond and very long durations under the comparator laws.",
+ "C15": " Also IsNone for Vec<T>, order laws on every time type, i64 casts of the time types, durations of ~300 years. Also law L9: inner_cast / into_cast keep the value and keep a null a null (ten Self types x eight value types). Law L10: the accessor family of the Number trait against `as`. Both signs of NaN in the float value lists. Law L11: equality of durations is the identity of their fields; month-bearing, sub-microsecond and very long durations under the comparator laws. Round 12 (DESIGN 5.21): law L12 - the twelve DateTime<U> -> DateTime<T> casts: NaT stays NaT, values floor to the coarser unit, overflow towards the finer unit is NaT.",
  "C16": " Also the Polars AnyValue bridge (3 x 3 unit pairs on every lattice timestamp); stateright cross-check. Also every optional numeric target (and f32 / f64) of a date-time in every state: null iff NaT. The deprecated to_cr and the TryFrom conversion next to as_cr in every state. The naive calendar routes (NaiveDateTime, Option<NaiveDateTime>, NaiveDate) in every state.",
  "C17": " Also integer scaling as repeated addition, Timelike setters, truncation to every grain count 1..60 (and more) in every unit ns..h. Also the difference of every pair of grid instants (up to 583 years apart) in every unit, exact to the digit. Durations with a month count and a fixed part applied to instants (datetime+-mixed).",
  "C18": " Also duration words of 17..300 terms, zero-padded numerals, FromStr / From<&str> / Cast routes. Also 16 caller-made formats (composite, padding-modified, 12-hour, day-of-year, compact, unix-timestamp specifiers) written by strftime(Some(fmt)) and parsed back with the same format. The edges of the nanosecond range (first / last instants, first partial second). Every single-character edit (characters of 1..4 bytes) of well-formed time-of-day texts with fractions of 0..12 digits and of duration texts. Signed and five / six digit years in the coarser units through the default formatter and parser.",
